@@ -27,7 +27,7 @@ pub fn mk_khs<K: KeyLike>(s: KhSpec) -> KHS<K> {
 
 pub type LruH<K> = RawLRU<K, TVal, DefaultEvictCallback, HS>;
 pub type LruCbH<K> = RawLRU<K, TVal, RecCb, HS>;
-pub type LruCbD<K> = RawLRU<K, TVal, RecCb, caches::DefaultHashBuilder>;
+pub type LruCbD<K> = RawLRU<K, TVal, RecCbZ, caches::DefaultHashBuilder>;
 pub type SegC<K> = SegmentedCache<K, TVal, HS, HS>;
 pub type TwoQC<K> = TwoQueueCache<K, TVal, HS, HS, HS>;
 pub type ArcC<K> = AdaptiveCache<K, TVal, HS, HS, HS, HS>;
@@ -327,9 +327,10 @@ impl<K: KeyLike> Sut<K> {
                 SutC::LruCb(RawLRU::with_on_evict_cb_and_hasher(cfg.a, r, h(0)).map_err(|e| e.to_string())?)
             }
             Kind::LruCbD => {
-                let r = RecCb::new();
-                cb = Some(r.id);
-                SutC::LruCbD(RawLRU::with_on_evict_cb(cfg.a, r).map_err(|e| e.to_string())?)
+                // default hasher + a zero-sized callback type
+                let _ = take_cb_log(ZST_CB);
+                cb = Some(ZST_CB);
+                SutC::LruCbD(RawLRU::with_on_evict_cb(cfg.a, RecCbZ).map_err(|e| e.to_string())?)
             }
             Kind::Seg => SutC::Seg(
                 SegmentedCacheBuilder::new(cfg.a, cfg.b)
@@ -518,7 +519,7 @@ impl<K: KeyLike> Sut<K> {
             ($c:expr, $variant:path) => {{
                 let cl = $c.clone();
                 if swap {
-                    let new_cb = if self.cb.is_some() { last_cb_id() } else { None };
+                    let new_cb = if self.cb == Some(ZST_CB) { Some(ZST_CB) } else if self.cb.is_some() { last_cb_id() } else { None };
                     self.c = $variant(cl);
                     if new_cb.is_some() {
                         self.cb = new_cb;
@@ -550,7 +551,7 @@ impl<K: KeyLike> Sut<K> {
             SutC::Wtl(c) => SutC::Wtl(c.clone()),
             _ => return None,
         };
-        Some(Sut { kind: self.kind, c, cb: if has_cb { last_cb_id() } else { None } })
+        Some(Sut { kind: self.kind, c, cb: if self.cb == Some(ZST_CB) { Some(ZST_CB) } else if has_cb { last_cb_id() } else { None } })
     }
 
     pub fn view(&self) -> View {
